@@ -370,7 +370,8 @@ def main(chk):
         'Solver-based checking of the cancel-key bookkeeping executed from MIR with SYMBOLIC map contents: Server::claim, Client::release '
         'and <Client as Drop>::drop on a cancel map holding arbitrary other entries (one inductive step per operation, so any history of '
         'claims/releases is covered), and the cancel-mode prefix of Client::handle with Server::cancel replaced by a recorder: a '
-        'cancel is issued only for a known key and with exactly the mapped (host, port, pid, key).')
+        'cancel is issued only for a known key and with exactly the mapped (host, port, pid, key). (O1-reclaim) a server that changes hands -- S.claim(P), S2.claim(P), S.claim(Q), all ids symbolic -- '
+        'leaves P mapped to S2: nothing a connection remembers about an earlier claimant may touch an entry that no longer names it.')
     chk.assumptions += [
         'WHEN claim / release happen relative to checkout and transaction end (call sites in Client::handle), stale-key timing and the '
         'throw-away TCP connection of Server::cancel are outside the claim',
